@@ -1,6 +1,7 @@
 package plugin
 
 import (
+	"time"
 	"bufio"
 	"bytes"
 	"context"
@@ -80,9 +81,13 @@ func (c *cliStream) Context() context.Context     { return c.ctx }
 func (c *cliStream) SendMsg(m interface{}) error  { return nil }
 func (c *cliStream) RecvMsg(m interface{}) error  { return nil }
 
-type bgCtx struct{ context.Context }
+// a context that is never done
+type bgCtx struct{}
 
-func (bgCtx) Done() <-chan struct{} { return nil }
+func (bgCtx) Done() <-chan struct{}             { return nil }
+func (bgCtx) Err() error                        { return nil }
+func (bgCtx) Deadline() (time.Time, bool)       { return time.Time{}, false }
+func (bgCtx) Value(key interface{}) interface{} { return nil }
 
 // bytes.NewReader + io.Copy, as used by grpcStdioClient.Run
 var bytesOf = map[*bytes.Reader]string{}
